@@ -864,10 +864,20 @@ fn force_https_thread(monitor: MonitorConfig) -> Result<(), Box<dyn std::error::
     Ok(())
 }
 
+/// The time the redirect thread waits for a client on port 80 to send (more of) its request.
+#[cfg(feature = "tls")]
+const FORCE_HTTPS_TIMEOUT: Duration = Duration::from_secs(5);
+
 /// Reads one request from the insecure stream and answers it with a redirect to HTTPS.
 #[cfg(feature = "tls")]
 fn force_https_redirect(stream: &mut TcpStream) -> Result<SocketAddr, Box<dyn std::error::Error>> {
     let addr = stream.peer_addr()?;
+
+    // The redirect thread handles one connection at a time, so it must not wait forever for a client
+    //   which connects and then sends nothing.
+    stream.set_read_timeout(Some(FORCE_HTTPS_TIMEOUT))?;
+    stream.set_write_timeout(Some(FORCE_HTTPS_TIMEOUT))?;
+
     let request = Request::from_stream(stream, addr)?;
 
     let response = if let Some(host) = request.headers.get(&HeaderType::Host) {
